@@ -703,6 +703,31 @@ void op_nist(const Case& c, TaskCtx& t, Outcome& o) {
       size_t bit = (size_t)(c.u("bit") % (8 * pkd.size()));
       pkd[bit >> 3] ^= (uint8_t)(0x80 >> (bit & 7));
       desc = "public key bit " + std::to_string(bit) + " flipped";
+    } else if (ff == "foreign") {
+      // a perfectly valid signed message and public key of ANOTHER parameter set handed to this set's opener: each
+      // NIST-style instance accepts exactly its own parameter set
+      static const int PEER[13] = {0, 2, 1, 4, 3, 6, 5, 10, 11, 12, 7, 8, 9};
+      int q = (c.u("n") & 1) ? PEER[param] : (int)(1 + (c.u("n") >> 1) % 12);
+      const model::Params* qp = model::params(q);
+      if (q == param || !qp || !generic_enabled(q)) {
+        o.skipped = true;
+        return;
+      }
+      model::Key kq = (qp->n == p.n && qp->r == p.r) ? k : key_from_case(c, *qp); // same LowMC instance: the very same key material
+      kq.param = q;
+      bytes qsig;
+      if (!honest_signature(kq, msg, qsig)) {
+        o.skipped = true;
+        return;
+      }
+      frame.clear();
+      uint32_t Lq = (uint32_t)qsig.size();
+      for (int i = 0; i < 4; i++)
+        frame.push_back((uint8_t)(Lq >> (8 * i)));
+      frame.insert(frame.end(), msg.begin(), msg.end());
+      frame.insert(frame.end(), qsig.begin(), qsig.end());
+      pkd = model::ser_pk(kq);
+      desc = std::string("a valid signed message and public key of ") + qp->name + " presented to the opener of " + p.name;
     } else if (ff == "zerowin") {
       // LE32(L) || zeros with smlen = L + w: for w < 4 the frame cannot hold header + signature; the all-zero body is a
       // well-formed (all-zero challenge) signature at every offset, so a wrong offset computation goes deep
